@@ -59,10 +59,17 @@ Qed.
 (* ------------------------------------------------------------------ *)
 (* Part A: what a parse call adds, as a pure substitution *)
 
-Definition node_fn (fr : N -> N) (d : disc) : N -> N :=
-  match d with Fresh => fr | Identity => lab_node end.
+(* the node a label denotes in a call started with the label dict [e0] *)
+Definition node_fn (fr : N -> N) (d : disc) (e0 : env) (l : N) : N :=
+  match d with
+  | Identity => lab_node l
+  | Fresh => match env_get e0 l with Some n => n | None => fr l end
+  end.
 
-Definition env_ok (fr : N -> N) (e : env) : Prop := forall l n, env_get e l = Some n -> n = fr l.
+(* the dict during the call: it extends [e0] with label |-> fr label *)
+Definition env_ok (fr : N -> N) (e0 e : env) : Prop :=
+  (forall l n, env_get e l = Some n -> n = node_fn fr Fresh e0 l) /\
+  (forall l, env_get e l = None -> env_get e0 l = None).
 
 Lemma env_get_app e l n l' :
   env_get (e ++ [(l, n)]) l' =
@@ -72,61 +79,151 @@ Proof.
   destruct (N.eqb k l'); auto.
 Qed.
 
-Lemma bnode_for_spec fr d e l e' n :
-  env_ok fr e -> bnode_for fr d e l = (e', n) -> env_ok fr e' /\ n = node_fn fr d l.
+Lemma env_get_app2 (e m : env) l :
+  env_get (e ++ m) l = match env_get e l with Some v => Some v | None => env_get m l end.
 Proof.
-  intros Hok. unfold bnode_for. destruct d; simpl.
-  - destruct (env_get e l) eqn:E; intros [= <- <-].
-    + split; auto.
-    + split; auto. intros l' n'. rewrite env_get_app.
-      destruct (env_get e l') eqn:E'; [intros [= <-]; auto|].
-      destruct (N.eqb_spec l l'); [intros [= <-]; subst; auto|discriminate].
-  - intros [= <- <-]. auto.
+  induction e as [|[k v] r IH]; simpl; [reflexivity|].
+  destruct (N.eqb k l); auto.
 Qed.
 
-Lemma res_term_spec fr d e t e' n :
-  env_ok fr e -> res_term fr d e t = (e', n) -> env_ok fr e' /\ n = sub_term (node_fn fr d) t.
+Lemma env_ok_refl fr e0 : env_ok fr e0 e0.
+Proof.
+  split; auto. intros l n H. unfold node_fn. now rewrite H.
+Qed.
+
+Lemma bnode_for_spec fr d e0 e l e' n :
+  env_ok fr e0 e -> bnode_for fr d e l = (e', n) -> env_ok fr e0 e' /\ n = node_fn fr d e0 l.
+Proof.
+  intros [Hok Hmiss]. unfold bnode_for. destruct d; simpl.
+  - destruct (env_get e l) eqn:E; intros [= <- <-].
+    + split; [split; auto|]. now apply Hok.
+    + pose proof (Hmiss l E) as E0.
+      split; [|unfold node_fn; now rewrite E0]. split.
+      * intros l' n'. rewrite env_get_app.
+        destruct (env_get e l') eqn:E'; [intros [= <-]; auto|].
+        destruct (N.eqb_spec l l') as [<-|]; [intros [= <-]; unfold node_fn; now rewrite E0|discriminate].
+      * intros l'. rewrite env_get_app. destruct (env_get e l') eqn:E'; [discriminate|].
+        intros _. auto.
+  - intros [= <- <-]. split; [split|]; auto.
+Qed.
+
+(* the labels the dict has learnt *)
+Lemma bnode_for_dom fr e l e' n l' :
+  bnode_for fr Fresh e l = (e', n) ->
+  (env_get e' l' <> None <-> env_get e l' <> None \/ l' = l).
+Proof.
+  unfold bnode_for. destruct (env_get e l) eqn:E; intros [= <- <-].
+  - split; auto. intros [H| -> ]; auto. congruence.
+  - rewrite env_get_app. destruct (env_get e l') eqn:E'.
+    + split; auto. intros _; discriminate.
+    + destruct (N.eqb_spec l l') as [<-|Hne].
+      * split; auto. intros _; discriminate.
+      * split; [tauto|]. intros [H|H]; congruence.
+Qed.
+
+Lemma bnode_for_identity fr e l : bnode_for fr Identity e l = (e, lab_node l).
+Proof. reflexivity. Qed.
+
+Lemma res_term_spec fr d e0 e t e' n :
+  env_ok fr e0 e -> res_term fr d e t = (e', n) -> env_ok fr e0 e' /\ n = sub_term (node_fn fr d e0) t.
 Proof.
   intros Hok. destruct t as [c|l]; simpl.
   - intros [= <- <-]; auto.
   - apply bnode_for_spec; auto.
 Qed.
 
-Lemma res_graph_spec fr d tgt e g e' n :
-  env_ok fr e -> res_graph fr d tgt e g = (e', n) -> env_ok fr e' /\ n = sub_graph (node_fn fr d) tgt g.
+Lemma res_graph_spec fr d tgt e0 e g e' n :
+  env_ok fr e0 e -> res_graph fr d tgt e g = (e', n) -> env_ok fr e0 e' /\ n = sub_graph (node_fn fr d e0) tgt g.
 Proof.
   intros Hok. destruct g as [|c|l]; simpl; try (intros [= <- <-]; auto).
   apply bnode_for_spec; auto.
 Qed.
 
-Lemma res_stmt_spec fr d tgt e s e' q :
-  env_ok fr e -> res_stmt fr d tgt e s = (e', q) ->
-  env_ok fr e' /\ q = sub_stmt (node_fn fr d) tgt s.
+Lemma res_stmt_spec fr d tgt e0 e s e' q :
+  env_ok fr e0 e -> res_stmt fr d tgt e s = (e', q) ->
+  env_ok fr e0 e' /\ q = sub_stmt (node_fn fr d e0) tgt s.
 Proof.
   intros Hok. destruct s as [[[s0 p] o] g]. unfold res_stmt, sub_stmt.
   destruct (res_term fr d e s0) as [e1 s'] eqn:E1.
   destruct (res_term fr d e1 o) as [e2 o'] eqn:E2.
   destruct (res_graph fr d tgt e2 g) as [e3 g'] eqn:E3.
   intros [= <- <-].
-  apply res_term_spec in E1; auto. destruct E1 as [H1 ->].
-  apply res_term_spec in E2; auto. destruct E2 as [H2 ->].
-  apply res_graph_spec in E3; auto. destruct E3 as [H3 ->]. auto.
+  apply res_term_spec with (e0 := e0) in E1; auto. destruct E1 as [H1 ->].
+  apply res_term_spec with (e0 := e0) in E2; auto. destruct E2 as [H2 ->].
+  apply res_graph_spec with (e0 := e0) in E3; auto. destruct E3 as [H3 ->]. auto.
 Qed.
 
-Lemma add_stmts_In fr d tgt l : forall e st q,
-  env_ok fr e ->
-  (In q (add_stmts fr d tgt e st l) <-> In q st \/ In q (map (sub_stmt (node_fn fr d) tgt) l)).
+Lemma res_term_dom fr e t e' n l' :
+  res_term fr Fresh e t = (e', n) ->
+  (env_get e' l' <> None <-> env_get e l' <> None \/ In l' (dterm_labels t)).
+Proof.
+  destruct t as [c|l]; simpl.
+  - intros [= <- <-]. tauto.
+  - intros H. rewrite (bnode_for_dom _ _ _ _ _ l' H). intuition.
+Qed.
+
+Lemma res_graph_dom fr tgt e g e' n l' :
+  res_graph fr Fresh tgt e g = (e', n) ->
+  (env_get e' l' <> None <-> env_get e l' <> None \/ In l' (dgraph_labels g)).
+Proof.
+  destruct g as [|c|l]; simpl; try (intros [= <- <-]; tauto).
+  intros H. rewrite (bnode_for_dom _ _ _ _ _ l' H). intuition.
+Qed.
+
+Lemma res_stmt_dom fr tgt e s e' q l' :
+  res_stmt fr Fresh tgt e s = (e', q) ->
+  (env_get e' l' <> None <-> env_get e l' <> None \/ In l' (stmt_labels s)).
+Proof.
+  destruct s as [[[s0 p] o] g]. unfold res_stmt, stmt_labels.
+  destruct (res_term fr Fresh e s0) as [e1 s'] eqn:E1.
+  destruct (res_term fr Fresh e1 o) as [e2 o'] eqn:E2.
+  destruct (res_graph fr Fresh tgt e2 g) as [e3 g'] eqn:E3.
+  intros [= <- <-].
+  rewrite (res_graph_dom _ _ _ _ _ _ l' E3), (res_term_dom _ _ _ _ _ l' E2), (res_term_dom _ _ _ _ _ l' E1).
+  rewrite !in_app_iff. tauto.
+Qed.
+
+Lemma res_stmt_identity fr tgt e s : fst (res_stmt fr Identity tgt e s) = e.
+Proof.
+  destruct s as [[[s0 p] o] g]. unfold res_stmt.
+  destruct s0, o, g; reflexivity.
+Qed.
+
+Lemma add_stmts_In fr d tgt e0 l : forall e st q,
+  env_ok fr e0 e ->
+  (In q (snd (add_stmts fr d tgt e st l)) <-> In q st \/ In q (map (sub_stmt (node_fn fr d e0) tgt) l)).
 Proof.
   induction l as [|s r IH]; intros e st q Hok; simpl; [tauto|].
   destruct (res_stmt fr d tgt e s) as [e' q'] eqn:E.
-  apply res_stmt_spec in E; auto. destruct E as [Hok' ->].
+  apply res_stmt_spec with (e0 := e0) in E; auto. destruct E as [Hok' ->].
   rewrite IH by auto. rewrite q_add_In. intuition congruence.
 Qed.
 
-Lemma env_ok_nil fr : env_ok fr [].
-Proof. intros l n; discriminate. Qed.
+Lemma add_stmts_env_ok fr d tgt e0 l : forall e st,
+  env_ok fr e0 e -> env_ok fr e0 (fst (add_stmts fr d tgt e st l)).
+Proof.
+  induction l as [|s r IH]; intros e st Hok; simpl; auto.
+  destruct (res_stmt fr d tgt e s) as [e' q'] eqn:E.
+  apply res_stmt_spec with (e0 := e0) in E; auto. destruct E as [Hok' _]. auto.
+Qed.
 
-(* wiping <urn:x-rdflib:default> *)
+Lemma add_stmts_dom fr tgt l : forall e st l',
+  env_get (fst (add_stmts fr Fresh tgt e st l)) l' <> None <->
+  env_get e l' <> None \/ In l' (flat_map stmt_labels l).
+Proof.
+  induction l as [|s r IH]; intros e st l'; simpl; [tauto|].
+  destruct (res_stmt fr Fresh tgt e s) as [e' q'] eqn:E.
+  rewrite IH, (res_stmt_dom _ _ _ _ _ _ l' E), in_app_iff. tauto.
+Qed.
+
+Lemma add_stmts_identity fr tgt l : forall e st, fst (add_stmts fr Identity tgt e st l) = e.
+Proof.
+  induction l as [|s r IH]; intros e st; simpl; auto.
+  pose proof (res_stmt_identity fr tgt e s) as H.
+  destruct (res_stmt fr Identity tgt e s) as [e' q']. simpl in H. subst. apply IH.
+Qed.
+
+(* wiping <urn:x-rdflib:default> (historical, finding F12) *)
 Lemma wipe_default_In q st : In q (wipe_default st) <-> In q st /\ q_g q <> DS_DEFAULT.
 Proof.
   unfold wipe_default. rewrite q_remove_In. unfold qsel, q_g.
@@ -135,10 +232,41 @@ Proof.
   destruct (N.eqb_spec DS_DEFAULT g); intuition congruence.
 Qed.
 
-Lemma parse_call_In fr st d q :
-  In q (parse_call fr st d) <->
-  In q st \/ In q (map (sub_stmt (node_fn fr (disc_of (d_fmt d))) (d_target d)) (d_stmts d)).
-Proof. unfold parse_call. apply add_stmts_In, env_ok_nil. Qed.
+Lemma parse_call_In fr e0 st d q :
+  In q (snd (parse_call fr e0 st d)) <->
+  In q st \/ In q (map (sub_stmt (node_fn fr (call_disc d) e0) (d_target d)) (d_stmts d)).
+Proof. unfold parse_call. apply add_stmts_In, env_ok_refl. Qed.
+
+(* the dict a call leaves behind: what it had, plus label |-> new node for the document's labels *)
+Lemma parse_call_env fr e0 st d l :
+  env_get (fst (parse_call fr e0 st d)) l =
+  match call_disc d with
+  | Identity => env_get e0 l
+  | Fresh => match env_get e0 l with
+             | Some n => Some n
+             | None => if memb N.eqb l (labels_of (d_stmts d)) then Some (fr l) else None
+             end
+  end.
+Proof.
+  unfold parse_call. destruct (call_disc d) eqn:Ed.
+  - pose proof (add_stmts_env_ok fr Fresh (d_target d) e0 (d_stmts d) e0 st (env_ok_refl fr e0)) as [H1 H2].
+    pose proof (add_stmts_dom fr (d_target d) (d_stmts d) e0 st l) as Hd.
+    destruct (env_get (fst (add_stmts fr Fresh (d_target d) e0 st (d_stmts d))) l) as [n|] eqn:E.
+    + pose proof (H1 l n E) as Hn. unfold node_fn in Hn.
+      destruct (env_get e0 l) eqn:E0; [congruence|].
+      assert (In l (flat_map stmt_labels (d_stmts d))) as Hin.
+      { destruct Hd as [Hd _]. destruct Hd as [Hd|Hd]; [discriminate|congruence|auto]. }
+      assert (memb N.eqb l (labels_of (d_stmts d)) = true) as ->.
+      { apply (memb_In N.eqb N.eqb_spec). unfold labels_of.
+        now apply (proj2 (dedup_In N.eqb N.eqb_spec l _)). }
+      congruence.
+    + rewrite (H2 l E).
+      destruct (memb N.eqb l (labels_of (d_stmts d))) eqn:Em; auto.
+      apply (memb_In N.eqb N.eqb_spec) in Em. unfold labels_of in Em.
+      apply (proj1 (dedup_In N.eqb N.eqb_spec l _)) in Em.
+      exfalso. destruct Hd as [_ Hd]. apply Hd; auto.
+  - now rewrite add_stmts_identity.
+Qed.
 
 (* ------------------------------------------------------------------ *)
 (* the trigger predicate, read *)
@@ -156,8 +284,8 @@ Proof.
   congruence.
 Qed.
 
-(* parsing only adds: every syntax, every label discipline, every supply *)
-Lemma parse_call_incl fr st d : incl st (parse_call fr st d).
+(* parsing only adds: every syntax, every label discipline, every supply, every dict *)
+Lemma parse_call_incl fr e0 st d : incl st (snd (parse_call fr e0 st d)).
 Proof. intros q Hq. apply parse_call_In; auto. Qed.
 
 (* ------------------------------------------------------------------ *)
@@ -216,9 +344,25 @@ Lemma doc_ok_spec j d :
   (forall s, In s (d_stmts d) -> stmt_ok j s = true) /\
   (forall l, In l (labels_of (d_stmts d)) -> exists g, In (DL l, TAGP, DC (tag j l), g) (d_stmts d)).
 Proof.
-  unfold doc_ok. rewrite !andb_true_iff, N.ltb_lt, !forallb_forall. intros [[H1 H2] H3].
+  unfold doc_ok. rewrite !andb_true_iff, N.ltb_lt, !forallb_forall. intros [[[H1 H2] H3] _].
   repeat split; auto. intros l Hl. specialize (H3 l Hl). apply existsb_exists in H3.
   destruct H3 as [s [Hs Ht]]. apply is_tag_stmt_spec in Ht. destruct Ht as [g ->]. eauto.
+Qed.
+
+Lemma doc_ok_opts j d : doc_ok j d = true -> opts_ok d = true.
+Proof. unfold doc_ok. rewrite !andb_true_iff. tauto. Qed.
+
+(* a call on a long-lived dict is a Fresh N-Triples / N-Quads call *)
+Lemma opts_ok_key d k : opts_ok d = true -> env_key d = Some k -> call_disc d = Fresh /\ d_keep d = false.
+Proof.
+  unfold opts_ok, call_disc. intros H E. rewrite E in H.
+  destruct (d_fmt d); try discriminate; destruct (d_keep d); try discriminate; auto.
+Qed.
+
+Lemma opts_ok_keep d : opts_ok d = true -> d_keep d = true -> env_key d = None.
+Proof.
+  unfold opts_ok. intros H E. destruct (env_key d); auto.
+  rewrite E in H. destruct (d_fmt d); discriminate.
 Qed.
 
 Lemma dterm_label_lt t l : dterm_ok t = true -> In l (dterm_labels t) -> l < LB.
@@ -244,13 +388,17 @@ Proof. unfold tag, LB. lia. Qed.
 (* Part C2: the checker accepts a merge (completeness of [merge_ok] on tagged documents) *)
 
 Section MergeIntro.
-  Variables (prev now : qset) (j : N) (d : doc) (g : N -> N).
+  Variables (known : env) (prev now : qset) (j : N) (d : doc) (g : N -> N).
   Let ls := labels_of (d_stmts d).
   Hypothesis Hchar : forall q, In q now <-> In q prev \/ In q (map (sub_stmt g (d_target d)) (d_stmts d)).
   Hypothesis Hdoc : doc_ok j d = true.
   Hypothesis Hhyg : forall q, In q prev -> q_p q = TAGP -> forall l, l < LB -> q_o q <> tag j l.
   Hypothesis Hinj : forall l l', In l ls -> In l' ls -> g l = g l' -> l = l'.
-  Hypothesis Hnew : forall l, In l ls -> is_bnode (g l) = true /\ occurs_in (g l) prev = false.
+  Hypothesis Hnew : forall l, In l ls ->
+    match env_get known l with
+    | Some n => g l = n
+    | None => is_bnode (g l) = true /\ occurs_in (g l) prev = false
+    end.
 
   Lemma tag_nodes_eq l : In l ls -> tag_nodes now j l = [g l].
   Proof.
@@ -294,7 +442,7 @@ Section MergeIntro.
     destruct (N.eqb_spec a l); [subst; auto|]. destruct H; [congruence|auto].
   Qed.
 
-  Lemma merge_ok_intro : merge_ok prev now j d = true.
+  Lemma merge_ok_intro : merge_ok known prev now j d = true.
   Proof.
     unfold merge_ok. fold ls. rewrite (recover_eq ls) by apply incl_refl.
     assert (map snd (map (fun l => (l, g l)) ls) = map g ls) as Hsnd
@@ -302,8 +450,10 @@ Section MergeIntro.
     rewrite Hsnd. rewrite !andb_true_iff. repeat split.
     - apply subsetb_spec; [apply quad_eqb_spec|]. intros q Hq. apply Hchar; auto.
     - apply nodupb_spec; [apply N.eqb_spec|]. apply NoDup_map_inj_in; auto. apply labels_of_NoDup.
-    - apply forallb_forall. intros n Hn. apply in_map_iff in Hn. destruct Hn as [l [<- Hl]].
-      destruct (Hnew l Hl) as [-> ->]. reflexivity.
+    - apply forallb_forall. intros ln Hn. apply in_map_iff in Hn. destruct Hn as [l [<- Hl]].
+      unfold label_ok; simpl. specialize (Hnew l Hl).
+      destruct (env_get known l); [now apply N.eqb_eq|].
+      destruct Hnew as [-> ->]. reflexivity.
     - apply qseteqb_spec. intros q. rewrite in_app_iff, Hchar.
       assert (map (sub_stmt (apply_map (map (fun l => (l, g l)) ls)) (d_target d)) (d_stmts d)
               = map (sub_stmt g (d_target d)) (d_stmts d)) as ->; [|tauto].
@@ -371,24 +521,43 @@ Section Supply.
     - right; left; auto.
   Qed.
 
-  Lemma node_fn_old j dsc l : l < LB -> old (N.succ j) (node_fn (fresh j) dsc l).
+  (* every entry of a long-lived dict was made for ITS label by an earlier call *)
+  Definition EnvInv (j : N) (e : env) : Prop :=
+    forall l n, env_get e l = Some n -> l < LB /\ exists j', j' < j /\ n = fresh j' l.
+  Definition EnvsInv (j : N) (es : envs) : Prop := forall k, EnvInv j (envs_get es k).
+
+  Lemma EnvInv_nil j : EnvInv j [].
+  Proof. intros l n; discriminate. Qed.
+
+  Lemma EnvsInv_set j es k e : EnvsInv j es -> EnvInv j e -> EnvsInv j (envs_set es k e).
   Proof.
-    intros Hl. destruct dsc; simpl.
-    - right; right. exists j, l. repeat split; auto. lia.
+    intros H He k'. unfold envs_set; simpl. destruct (N.eqb k k'); auto.
+  Qed.
+
+  Lemma start_env_inv j es d : EnvsInv j es -> EnvInv j (start_env es d).
+  Proof. intros H. unfold start_env. destruct (env_key d); [apply H|apply EnvInv_nil]. Qed.
+
+  Lemma node_fn_old j dsc e0 l : EnvInv j e0 -> l < LB -> old (N.succ j) (node_fn (fresh j) dsc e0 l).
+  Proof.
+    intros He Hl. destruct dsc; simpl.
+    - destruct (env_get e0 l) as [n|] eqn:E.
+      + destruct (He l n E) as [_ [j' [Hj ->]]]. right; right. exists j', l. repeat split; auto. lia.
+      + right; right. exists j, l. repeat split; auto. lia.
     - left. unfold lab_node, LB in *. lia.
   Qed.
 
-  Lemma sub_term_old j dsc t : dterm_ok t = true -> old (N.succ j) (sub_term (node_fn (fresh j) dsc) t).
+  Lemma sub_term_old j dsc e0 t :
+    EnvInv j e0 -> dterm_ok t = true -> old (N.succ j) (sub_term (node_fn (fresh j) dsc e0) t).
   Proof.
-    destruct t as [n|l]; simpl; intros H.
+    destruct t as [n|l]; simpl; intros He H.
     - now apply const_old.
-    - apply node_fn_old. now apply N.ltb_lt.
+    - apply node_fn_old; auto. now apply N.ltb_lt.
   Qed.
 
-  Lemma Inv_step j st d :
-    Inv j st -> doc_ok j d = true -> Inv (N.succ j) (parse_call (fresh j) st d).
+  Lemma Inv_step j e0 st d :
+    Inv j st -> EnvInv j e0 -> doc_ok j d = true -> Inv (N.succ j) (snd (parse_call (fresh j) e0 st d)).
   Proof.
-    intros HI Hdoc q Hq. destruct (doc_ok_spec _ _ Hdoc) as [Htgt [Hst _]].
+    intros HI He Hdoc q Hq. destruct (doc_ok_spec _ _ Hdoc) as [Htgt [Hst _]].
     apply parse_call_In in Hq. destruct Hq as [Hq|Hq].
     - destruct (HI q Hq) as [H1 H2]. split.
       + intros n Hn. apply old_mono; auto.
@@ -405,44 +574,134 @@ Section Supply.
         * destruct gr as [|c|l]; simpl.
           -- left; auto.
           -- left. apply N.ltb_lt in Hg. lia.
-          -- apply node_fn_old. now apply N.ltb_lt.
+          -- apply node_fn_old; auto. now apply N.ltb_lt.
       + unfold q_p, q_o; simpl. intros E. destruct (Ht E) as [l [-> ->]]. simpl.
         exists j, l. repeat split; [lia|now apply N.ltb_lt].
   Qed.
 
-  Lemma step_ok j st d :
-    Inv j st -> doc_ok j d = true -> kf_step st d = 0 ->
-    merge_ok st (parse_call (fresh j) st d) j d = true.
+  Lemma EnvInv_mono j e : EnvInv j e -> EnvInv (N.succ j) e.
   Proof.
-    intros HI Hdoc Hkf. pose proof (kf_step_0 _ _ Hkf) as Hid.
-    destruct (doc_ok_spec _ _ Hdoc) as [_ [Hst _]].
-    apply merge_ok_intro with (g := node_fn (fresh j) (disc_of (d_fmt d))); auto.
-    - intros q. apply parse_call_In.
-    - intros q Hq Hp l Hl E. destruct (HI q Hq) as [_ H2].
-      destruct (H2 Hp) as [j' [l' [Ha [Hb Hc]]]]. rewrite Hc in E.
-      apply tag_inj in E; auto. lia.
-    - intros l l' Hl Hl' E.
-      assert (l < LB) by (eapply label_lt; eauto).
-      assert (l' < LB) by (eapply label_lt; eauto).
-      destruct (disc_of (d_fmt d)); simpl in E.
-      + apply fresh_inj in E; tauto.
-      + now apply lab_node_inj.
-    - intros l Hl. assert (l < LB) as Hlt by (eapply label_lt; eauto).
-      destruct (disc_of (d_fmt d)) eqn:Ed; simpl.
-      + split; [apply is_bnode_fresh|]. apply occurs_in_false. intros q Hq.
-        destruct (occurs (fresh j l) q) eqn:Eo; auto. exfalso.
-        destruct (HI q Hq) as [H1 _]. apply (fresh_not_old j l Hlt). auto.
-      + split; [now apply is_bnode_lab|]. auto.
+    intros H l n E. destruct (H l n E) as [Hl [j' [Hj ->]]]. split; auto. exists j'. split; auto. lia.
   Qed.
 
-  Theorem spec_run_model : forall ds j st,
-    Inv j st -> docs_ok j ds = true -> kf_run fresh j st ds = 0 ->
-    spec_run st j ds (run fresh j st ds) = true.
+  Lemma EnvInv_step j e0 st d :
+    EnvInv j e0 -> doc_ok j d = true -> EnvInv (N.succ j) (fst (parse_call (fresh j) e0 st d)).
   Proof.
-    induction ds as [|d r IH]; intros j st HI Hd Hk; simpl; [reflexivity|].
+    intros He Hdoc l n. rewrite parse_call_env. destruct (doc_ok_spec _ _ Hdoc) as [_ [Hst _]].
+    destruct (call_disc d).
+    - destruct (env_get e0 l) as [n'|] eqn:E.
+      + intros [= <-]. now apply (EnvInv_mono j e0 He l n').
+      + destruct (memb N.eqb l (labels_of (d_stmts d))) eqn:Em; [|discriminate].
+        intros [= <-]. apply (memb_In N.eqb N.eqb_spec) in Em.
+        split; [eapply label_lt; eauto|]. exists j. split; auto. lia.
+    - intros E. now apply (EnvInv_mono j e0 He l n).
+  Qed.
+
+  (* lookups of the checker's dicts and of the model's dicts agree *)
+  Definition envs_eqv (es ses : envs) : Prop :=
+    forall k l, env_get (envs_get es k) l = env_get (envs_get ses k) l.
+
+  Lemma start_env_eqv es ses d l :
+    envs_eqv es ses -> env_get (start_env es d) l = env_get (start_env ses d) l.
+  Proof. intros H. unfold start_env. destruct (env_key d); auto. Qed.
+
+  Lemma env_get_keep_map stmts l :
+    env_get (keep_map stmts) l = if memb N.eqb l (labels_of stmts) then Some (lab_node l) else None.
+  Proof.
+    unfold keep_map. induction (labels_of stmts) as [|a r IH]; simpl; [reflexivity|].
+    rewrite (N.eqb_sym l a). destruct (N.eqb a l) eqn:E; simpl; auto.
+    apply N.eqb_eq in E. now subst.
+  Qed.
+
+  Lemma env_get_graph_none (g : N -> N) (l0 : list N) l :
+    ~ In l l0 -> env_get (map (fun l => (l, g l)) l0) l = None.
+  Proof.
+    induction l0 as [|a r IH]; simpl; auto. intros H.
+    destruct (N.eqb_spec a l); [subst; tauto|]. apply IH; tauto.
+  Qed.
+
+  Lemma step_ok j es ses st d :
+    Inv j st -> EnvsInv j es -> envs_eqv es ses -> doc_ok j d = true -> kf_step st d = 0 ->
+    let e0 := start_env es d in
+    let st1 := snd (parse_call (fresh j) e0 st d) in
+    merge_ok (known_of ses d) st st1 j d = true /\
+    envs_eqv (keep_env es d (fst (parse_call (fresh j) e0 st d))) (learn ses d st1 j).
+  Proof.
+    intros HI HE Heq Hdoc Hkf e0 st1. pose proof (kf_step_0 _ _ Hkf) as Hid.
+    destruct (doc_ok_spec _ _ Hdoc) as [_ [Hst _]].
+    pose proof (doc_ok_opts _ _ Hdoc) as Hopts.
+    pose proof (start_env_inv j es d HE) as He0. fold e0 in He0.
+    set (g := node_fn (fresh j) (call_disc d) e0).
+    assert (forall q, In q st1 <-> In q st \/ In q (map (sub_stmt g (d_target d)) (d_stmts d))) as Hchar
+      by (intros q; apply parse_call_In).
+    assert (forall q, In q st -> q_p q = TAGP -> forall l, l < LB -> q_o q <> tag j l) as Hhyg.
+    { intros q Hq Hp l Hl E. destruct (HI q Hq) as [_ H2].
+      destruct (H2 Hp) as [j' [l' [Ha [Hb Hc]]]]. rewrite Hc in E.
+      apply tag_inj in E; auto. lia. }
+    assert (forall l, l < LB -> exists j', j' <= j /\ node_fn (fresh j) Fresh e0 l = fresh j' l) as Hfr.
+    { intros l Hl. unfold node_fn. destruct (env_get e0 l) as [n|] eqn:E.
+      - destruct (He0 l n E) as [_ [j' [Hj ->]]]. exists j'. split; auto. lia.
+      - exists j. split; auto. lia. }
+    assert (forall l l', In l (labels_of (d_stmts d)) -> In l' (labels_of (d_stmts d)) -> g l = g l' -> l = l') as Hinj.
+    { intros l l' Hl Hl' E.
+      assert (l < LB) as H1 by (eapply label_lt; eauto).
+      assert (l' < LB) as H2 by (eapply label_lt; eauto).
+      unfold g in E. destruct (call_disc d).
+      - destruct (Hfr l H1) as [j1 [_ E1]]. destruct (Hfr l' H2) as [j2 [_ E2]].
+        rewrite E1, E2 in E. apply fresh_inj in E; tauto.
+      - now apply lab_node_inj. }
+    assert (recover st1 j (labels_of (d_stmts d)) = Some (map (fun l => (l, g l)) (labels_of (d_stmts d)))) as Hrec.
+    { apply recover_eq with (prev := st) (d := d); auto. apply incl_refl. }
+    split.
+    - apply merge_ok_intro with (g := g); auto.
+      intros l Hl. assert (l < LB) as Hlt by (eapply label_lt; eauto).
+      unfold known_of, g, call_disc. destruct (d_keep d) eqn:Ek.
+      + rewrite env_get_keep_map.
+        assert (memb N.eqb l (labels_of (d_stmts d)) = true) as -> by (now apply (memb_In N.eqb N.eqb_spec)).
+        reflexivity.
+      + rewrite <- (start_env_eqv es ses d l Heq). fold e0.
+        destruct (disc_of (d_fmt d)) eqn:Ed; simpl.
+        * destruct (env_get e0 l) as [n|] eqn:E; [reflexivity|].
+          split; [apply is_bnode_fresh|]. apply occurs_in_false. intros q Hq.
+          destruct (occurs (fresh j l) q) eqn:Eo; auto. exfalso.
+          destruct (HI q Hq) as [H1 _]. apply (fresh_not_old j l Hlt). auto.
+        * assert (env_key d = None) as Hk.
+          { destruct (env_key d) as [k|] eqn:Ekey; auto.
+            destruct (opts_ok_key d k Hopts Ekey) as [Hc _].
+            unfold call_disc in Hc. rewrite Ek, Ed in Hc. discriminate. }
+          unfold e0, start_env. rewrite Hk. simpl.
+          split; [now apply is_bnode_lab|]. auto.
+    - unfold keep_env, learn. destruct (env_key d) as [k|] eqn:Ekey; auto.
+      fold st1. rewrite Hrec.
+      destruct (opts_ok_key d k Hopts Ekey) as [Hc Hkeep].
+      intros k' l. unfold envs_set; simpl. destruct (N.eqb k k'); [|apply Heq].
+      rewrite parse_call_env, Hc, env_get_app2.
+      assert (forall l, env_get e0 l = env_get (envs_get ses k) l) as He.
+      { intros l0. unfold e0, start_env. rewrite Ekey. apply Heq. }
+      rewrite <- He. destruct (env_get e0 l) eqn:E0; auto.
+      destruct (memb N.eqb l (labels_of (d_stmts d))) eqn:Em.
+      + apply (memb_In N.eqb N.eqb_spec) in Em. rewrite env_get_graph by auto.
+        unfold g. rewrite Hc. unfold node_fn. now rewrite E0.
+      + rewrite env_get_graph_none; auto. intros Hin.
+        apply (memb_In N.eqb N.eqb_spec) in Hin. congruence.
+  Qed.
+
+  Theorem spec_run_model : forall ds j es ses st,
+    Inv j st -> EnvsInv j es -> envs_eqv es ses -> docs_ok j ds = true -> kf_run fresh j es st ds = 0 ->
+    spec_run ses st j ds (run fresh j es st ds) = true.
+  Proof.
+    induction ds as [|d r IH]; intros j es ses st HI HE Heq Hd Hk; simpl; [reflexivity|].
     simpl in Hd. apply andb_true_iff in Hd. destruct Hd as [Hd Hr].
     simpl in Hk. destruct (kf_step st d) eqn:Ek; [|discriminate].
-    rewrite step_ok by auto. simpl. apply IH; auto. now apply Inv_step.
+    unfold call_step in *.
+    destruct (step_ok j es ses st d HI HE Heq Hd Ek) as [Hm Hq].
+    pose proof (Inv_step j (start_env es d) st d HI (start_env_inv j es d HE) Hd) as HI'.
+    pose proof (EnvInv_step j (start_env es d) st d (start_env_inv j es d HE) Hd) as HE'.
+    destruct (parse_call (fresh j) (start_env es d) st d) as [e1 st1] eqn:Ep. simpl in *.
+    rewrite Bool.eqb_reflx, Hm. simpl. apply IH; auto.
+    unfold keep_env. destruct (env_key d).
+    - apply EnvsInv_set; auto. intros k. apply EnvInv_mono, HE.
+    - intros k. apply EnvInv_mono, HE.
   Qed.
 
   Lemma Inv_init init : forallb quad_small init = true -> Inv 0 init.
@@ -453,6 +712,9 @@ Section Supply.
     - intros n Hn. apply occurs_true in Hn. left. destruct Hn as [ -> | [ -> | [ -> | -> ] ] ]; auto.
     - intros E. congruence.
   Qed.
+
+  Lemma EnvsInv_nil j : EnvsInv j [].
+  Proof. intros k l n; discriminate. Qed.
 End Supply.
 
 Lemma std_fresh_inj j l j' l' : l < LB -> l' < LB -> std_fresh j l = std_fresh j' l' -> j = j' /\ l = l'.
@@ -468,7 +730,9 @@ Proof.
   intros c Hwf Hkf. unfold wf, wfb in Hwf. apply andb_true_iff in Hwf. destruct Hwf as [Hi Hd].
   unfold spec_ok, model_obs.
   apply (spec_run_model std_fresh std_fresh_inj std_fresh_range); auto.
-  apply Inv_init; auto.
+  - apply Inv_init; auto.
+  - apply EnvsInv_nil.
+  - intros k l; reflexivity.
 Qed.
 
 (* ------------------------------------------------------------------ *)
@@ -512,9 +776,9 @@ Proof.
   - eapply IH; eauto.
 Qed.
 
-Theorem merge_ok_sound prev now j d :
-  merge_ok prev now j d = true ->
-  incl prev now /\ rdf_merge prev (d_target d) (d_stmts d) now.
+Theorem merge_ok_sound known prev now j d :
+  merge_ok known prev now j d = true ->
+  incl prev now /\ rdf_merge known prev (d_target d) (d_stmts d) now.
 Proof.
   unfold merge_ok. rewrite andb_true_iff. intros [Hsub H].
   destruct (recover now j (labels_of (d_stmts d))) as [m|] eqn:Er; [|discriminate].
@@ -532,17 +796,19 @@ Proof.
     eapply snd_inj_in; eauto.
   - intros l Hl. rewrite <- Hdom in Hl. destruct (env_get_some m l Hl) as [n [H1 H2]].
     unfold apply_map. rewrite H1.
-    assert (In n (map snd m)) as Hin by (apply in_map_iff; exists (l, n); auto).
-    specialize (Hall n Hin). apply andb_true_iff in Hall. destruct Hall as [Hb Ho].
-    split; auto. apply negb_true_iff in Ho. now apply occurs_in_false.
+    specialize (Hall (l, n) H2). unfold label_ok in Hall; simpl in Hall.
+    destruct (env_get known l).
+    + now apply N.eqb_eq in Hall.
+    + apply andb_true_iff in Hall. destruct Hall as [Hb Ho].
+      split; auto. apply negb_true_iff in Ho. now apply occurs_in_false.
   - intros q. rewrite (Heq q), in_app_iff. tauto.
 Qed.
 
-Theorem spec_run_sound : forall ds prev j obs, spec_run prev j ds obs = true -> merges prev ds obs.
+Theorem spec_run_sound : forall ds es prev j obs, spec_run es prev j ds obs = true -> merges es prev j ds obs.
 Proof.
-  induction ds as [|d r IH]; intros prev j [|now obs']; simpl; try discriminate; auto.
-  rewrite andb_true_iff. intros [Hm Hr]. apply merge_ok_sound in Hm. destruct Hm as [H1 H2].
-  repeat split; eauto.
+  induction ds as [|d r IH]; intros es prev j [|[raised now] obs']; simpl; try discriminate; auto.
+  rewrite !andb_true_iff. intros [[Hr Hm] Hrest]. apply merge_ok_sound in Hm. destruct Hm as [H1 H2].
+  apply Bool.eqb_prop in Hr. repeat split; eauto.
 Qed.
 
 (* two calls never share a node *)
@@ -552,21 +818,29 @@ Proof.
   apply occurs_in_true. exists q. auto.
 Qed.
 
-Theorem merges_scoped : forall ds j prev obs used,
-  docs_ok j ds = true -> merges prev ds obs ->
+Lemma private_known es d : private d = true -> known_of es d = [].
+Proof.
+  unfold private, known_of, start_env. destruct (env_key d); [discriminate|].
+  intros H. apply negb_true_iff in H. now rewrite H.
+Qed.
+
+Theorem merges_scoped : forall ds j es prev obs used,
+  docs_ok j ds = true -> forallb private ds = true -> merges es prev j ds obs ->
   (forall n, In n used -> occurs_in n prev = true) ->
   scoped used prev ds obs.
 Proof.
-  induction ds as [|d r IH]; intros j prev [|now obs'] used Hd Hm Hu; simpl in *; auto.
+  induction ds as [|d r IH]; intros j es prev [|[raised now] obs'] used Hd Hp Hm Hu; simpl in *; auto.
   apply andb_true_iff in Hd. destruct Hd as [Hd Hr].
-  destruct Hm as [Hincl [[f [Hinj [Hnew Hchar]]] Hrest]].
+  apply andb_true_iff in Hp. destruct Hp as [Hp Hpr].
+  destruct Hm as [_ [Hincl [[f [Hinj [Hnew Hchar]]] Hrest]]].
+  rewrite (private_known es d Hp) in Hnew. simpl in Hnew.
   exists f. repeat split; auto.
   - intros Hin. specialize (Hu _ Hin). apply occurs_in_true in Hu.
     destruct Hu as [q [Hq Ho]]. destruct (Hnew l H) as [_ Hn]. rewrite (Hn q Hq) in Ho. discriminate.
   - apply (Hnew l H).
   - apply (Hchar q).
   - apply (Hchar q).
-  - apply (IH (N.succ j)); auto.
+  - apply (IH (N.succ j) (learn es d now j)); auto.
     intros n Hn. apply in_app_iff in Hn. destruct Hn as [Hn|Hn].
     + eapply occurs_in_incl; eauto.
     + apply in_map_iff in Hn. destruct Hn as [l [<- Hl]].
@@ -699,14 +973,19 @@ Theorem same_doc_iso (fr1 fr2 : N -> N) j d :
   (forall l, 1000 <= fr1 l /\ N.even (fr1 l) = true) ->
   (forall l, 1000 <= fr2 l /\ N.even (fr2 l) = true) ->
   doc_ok j d = true ->
-  exists h, iso_by h (parse_call fr1 [] d) (parse_call fr2 [] d).
+  exists h, iso_by h (snd (parse_call fr1 [] [] d)) (snd (parse_call fr2 [] [] d)).
 Proof.
   intros Hi1 Hi2 Hg1 Hg2 Hdoc. destruct (doc_ok_spec _ _ Hdoc) as [Htgt [Hst _]].
-  assert (forall fr q, In q (parse_call fr [] d) <->
-            In q (map (sub_stmt (node_fn fr (disc_of (d_fmt d))) (d_target d)) (d_stmts d))) as Hchar.
+  assert (forall fr q, In q (snd (parse_call fr [] [] d)) <->
+            In q (map (sub_stmt (node_fn fr (call_disc d) []) (d_target d)) (d_stmts d))) as Hchar.
   { intros fr q. rewrite parse_call_In. simpl; tauto. }
-  destruct (disc_of (d_fmt d)) eqn:Ed; simpl in Hchar.
-  - exists (renaming fr1 fr2 (labels_of (d_stmts d))).
+  destruct (call_disc d) eqn:Ed; simpl in Hchar.
+  - assert (forall fr q, In q (snd (parse_call fr [] [] d)) <->
+              In q (map (sub_stmt fr (d_target d)) (d_stmts d))) as Hchar'.
+    { intros fr q. rewrite Hchar.
+      rewrite (map_ext (sub_stmt (node_fn fr Fresh []) (d_target d)) (sub_stmt fr (d_target d))); [tauto|].
+      intros s. apply sub_stmt_ext. reflexivity. }
+    exists (renaming fr1 fr2 (labels_of (d_stmts d))).
     assert (forall fr : N -> N, (forall l, 1000 <= fr l /\ N.even (fr l) = true) -> forall l, ~ stable (fr l)) as Hns.
     { intros fr Hr l [H|H]; destruct (Hr l) as [H1 H2]; [lia|eapply even_not_odd; eauto]. }
     apply iso_sets with (stmts := d_stmts d) (tgt := d_target d); auto.
@@ -725,15 +1004,13 @@ Qed.
 
 Definition w_f9 : case :=
   {| c_init := [];
-     c_docs := [ {| d_fmt := HEXT; d_target := 0;
-                    d_stmts := [(DL 0, 3, DC 1, GD); (DL 0, TAGP, DC (tag 0 0), GD)] |};
-                 {| d_fmt := JLD; d_target := 1;
-                    d_stmts := [(DL 0, 3, DC 2, GD); (DL 0, TAGP, DC (tag 1 0), GD)] |} ] |}.
+     c_docs := [ (mkdoc HEXT 0 [(DL 0, 3, DC 1, GD); (DL 0, TAGP, DC (tag 0 0), GD)]);
+                 (mkdoc JLD 1 [(DL 0, 3, DC 2, GD); (DL 0, TAGP, DC (tag 1 0), GD)]) ] |}.
 
 Lemma f9_witness :
   wf w_f9 /\ kf w_f9 = 1 /\ spec_ok w_f9 (model_obs w_f9) = false /\
-  exists n, q_mem ((n, TAGP, tag 0 0), 0) (last (model_obs w_f9) []) = true
-         /\ q_mem ((n, TAGP, tag 1 0), 1) (last (model_obs w_f9) []) = true.
+  exists n, q_mem ((n, TAGP, tag 0 0), 0) (final (model_obs w_f9)) = true
+         /\ q_mem ((n, TAGP, tag 1 0), 1) (final (model_obs w_f9)) = true.
 Proof.
   split; [vm_compute; reflexivity|]. split; [vm_compute; reflexivity|].
   split; [vm_compute; reflexivity|]. exists (lab_node 0). split; vm_compute; reflexivity.
@@ -743,10 +1020,8 @@ Qed.
    already in the store, and a label shared by two TriX calls, are in scope and accepted *)
 Definition w_f9_trix : case :=
   {| c_init := [((100, 3, 1), 1)];
-     c_docs := [ {| d_fmt := TRIX; d_target := 0;
-                    d_stmts := [(DL 0, 3, DC 2, GC 2); (DL 0, TAGP, DC (tag 0 0), GC 2)] |};
-                 {| d_fmt := TRIX; d_target := 0;
-                    d_stmts := [(DL 0, 3, DC 2, GL 0); (DL 0, TAGP, DC (tag 1 0), GC 2)] |} ] |}.
+     c_docs := [ (mkdoc TRIX 0 [(DL 0, 3, DC 2, GC 2); (DL 0, TAGP, DC (tag 0 0), GC 2)]);
+                 (mkdoc TRIX 0 [(DL 0, 3, DC 2, GL 0); (DL 0, TAGP, DC (tag 1 0), GC 2)]) ] |}.
 
 Lemma f9_trix_fixed : wf w_f9_trix /\ kf w_f9_trix = 0 /\ spec_ok w_f9_trix (model_obs w_f9_trix) = true.
 Proof. repeat split; vm_compute; reflexivity. Qed.
@@ -755,12 +1030,12 @@ Proof. repeat split; vm_compute; reflexivity. Qed.
    deleted what <urn:x-rdflib:default> held; the repaired model keeps it *)
 Definition w_f12 : case :=
   {| c_init := [((1, 3, 2), 0)];
-     c_docs := [ {| d_fmt := NQ; d_target := 0; d_stmts := [(DC 2, 3, DC 2, GC 1)] |} ] |}.
+     c_docs := [ (mkdoc NQ 0 [(DC 2, 3, DC 2, GC 1)]) ] |}.
 
 Lemma f12_prefix_witness :
-  exists fr st d q, In q st /\ ~ In q (parse_call_prefix fr st d) /\ In q (parse_call fr st d).
+  exists fr st d q, In q st /\ ~ In q (snd (parse_call_prefix fr [] st d)) /\ In q (snd (parse_call fr [] st d)).
 Proof.
-  exists (std_fresh 0), (c_init w_f12), {| d_fmt := NQ; d_target := 0; d_stmts := [(DC 2, 3, DC 2, GC 1)] |},
+  exists (std_fresh 0), (c_init w_f12), (mkdoc NQ 0 [(DC 2, 3, DC 2, GC 1)]),
          ((1, 3, 2), 0).
   split; [simpl; auto|]. split.
   - intros H. apply q_mem_In in H. vm_compute in H. discriminate.
@@ -773,13 +1048,9 @@ Proof. repeat split; vm_compute; reflexivity. Qed.
 (* non-vacuity: a mixed run in scope of the theorem *)
 Definition w_ok : case :=
   {| c_init := [((100, 3, 1), 1); ((1, 3, 100), 0)];
-     c_docs := [ {| d_fmt := TRIG; d_target := 0;
-                    d_stmts := [(DL 0, 3, DL 1, GC 1); (DL 0, TAGP, DC (tag 0 0), GD);
-                                (DC 1, 4, DL 0, GL 1); (DL 1, TAGP, DC (tag 0 1), GC 1)] |};
-                 {| d_fmt := NT; d_target := 1;
-                    d_stmts := [(DL 0, 3, DC 5, GD); (DL 0, TAGP, DC (tag 1 0), GD)] |};
-                 {| d_fmt := JLD; d_target := 2;
-                    d_stmts := [(DL 2, 3, DC 5, GD); (DL 2, TAGP, DC (tag 2 2), GL 2)] |} ] |}.
+     c_docs := [ (mkdoc TRIG 0 [(DL 0, 3, DL 1, GC 1); (DL 0, TAGP, DC (tag 0 0), GD); (DC 1, 4, DL 0, GL 1); (DL 1, TAGP, DC (tag 0 1), GC 1)]);
+                 (mkdoc NT 1 [(DL 0, 3, DC 5, GD); (DL 0, TAGP, DC (tag 1 0), GD)]);
+                 (mkdoc JLD 2 [(DL 2, 3, DC 5, GD); (DL 2, TAGP, DC (tag 2 2), GL 2)]) ] |}.
 
 (* ------------------------------------------------------------------ *)
 (* Part H: the property statements for an arbitrary supply *)
@@ -793,17 +1064,21 @@ Proof. split; [exact std_fresh_inj|exact std_fresh_range]. Qed.
 
 Theorem run_merges fresh init ds :
   supply_ok fresh -> forallb quad_small init = true -> docs_ok 0 ds = true ->
-  kf_run fresh 0 init ds = 0 -> merges init ds (run fresh 0 init ds).
+  kf_run fresh 0 [] init ds = 0 -> merges [] init 0 ds (run fresh 0 [] init ds).
 Proof.
-  intros [Hi Hr] Hq Hd Hk. apply (spec_run_sound ds init 0).
-  apply spec_run_model; auto. apply Inv_init; auto.
+  intros [Hi Hr] Hq Hd Hk. apply spec_run_sound.
+  apply spec_run_model; auto.
+  - apply Inv_init; auto.
+  - apply EnvsInv_nil.
+  - intros k l; reflexivity.
 Qed.
 
 Theorem run_scoped fresh init ds :
   supply_ok fresh -> forallb quad_small init = true -> docs_ok 0 ds = true ->
-  kf_run fresh 0 init ds = 0 -> scoped [] init ds (run fresh 0 init ds).
+  forallb private ds = true ->
+  kf_run fresh 0 [] init ds = 0 -> scoped [] init ds (run fresh 0 [] init ds).
 Proof.
-  intros Hs Hq Hd Hk. apply (merges_scoped ds 0); auto.
+  intros Hs Hq Hd Hp Hk. apply (merges_scoped ds 0 []); auto.
   apply run_merges; auto.
 Qed.
 
@@ -812,9 +1087,67 @@ Lemma w_ok_nonvacuous :
   spec_ok w_ok (model_obs w_ok) = true.
 Proof. repeat split; vm_compute; reflexivity. Qed.
 
-Lemma run_incl fresh : forall ds j st now, In now (run fresh j st ds) -> incl st now.
+Lemma run_incl fresh : forall ds j es st o, In o (run fresh j es st ds) -> incl st (snd o).
 Proof.
-  induction ds as [|d r IH]; intros j st now; simpl; [tauto|].
-  intros [<-|H]; [apply parse_call_incl|].
-  eapply incl_tran; [apply parse_call_incl|]. eapply IH; eauto.
+  induction ds as [|d r IH]; intros j es st o; simpl; [tauto|].
+  unfold call_step.
+  pose proof (parse_call_incl (fresh j) (start_env es d) st d) as Hi.
+  destruct (parse_call (fresh j) (start_env es d) st d) as [e1 st1]. simpl in Hi.
+  intros [<-|H]; [exact Hi|].
+  eapply incl_tran; [exact Hi|]. eapply IH; eauto.
+Qed.
+
+(* ------------------------------------------------------------------ *)
+(* Part I: a call that raises half-way; the same document twice *)
+
+Lemma cut_In fr e0 st d k q :
+  In q (snd (parse_call fr e0 st (cut k d))) <->
+  In q st \/ In q (map (sub_stmt (node_fn fr (call_disc d) e0) (d_target d)) (firstn k (d_stmts d))).
+Proof. rewrite parse_call_In. reflexivity. Qed.
+
+Lemma firstn_incl {A} (k : nat) (l : list A) : incl (firstn k l) l.
+Proof.
+  revert l; induction k as [|k IH]; intros [|a r]; simpl; intros y Hy; try (now destruct Hy).
+  destruct Hy as [<-|H]; [left; auto|right; now apply IH].
+Qed.
+
+Theorem failure_atomicity fr e0 st d k :
+  incl st (snd (parse_call fr e0 st (cut k d))) /\
+  incl (snd (parse_call fr e0 st (cut k d))) (snd (parse_call fr e0 st d)).
+Proof.
+  split.
+  - apply parse_call_incl.
+  - intros q Hq. apply cut_In in Hq. apply parse_call_In. destruct Hq as [Hq|Hq]; auto.
+    right. apply in_map_iff in Hq. destruct Hq as [s [<- Hs]]. apply in_map. now apply firstn_incl in Hs.
+Qed.
+
+(* the dict a failed call leaves behind has learnt only labels of the part that was read *)
+Lemma cut_env fr e0 st d k l n :
+  env_get (fst (parse_call fr e0 st (cut k d))) l = Some n ->
+  env_get e0 l = Some n \/ (env_get e0 l = None /\ n = fr l /\ In l (labels_of (firstn k (d_stmts d)))).
+Proof.
+  rewrite parse_call_env. change (call_disc (cut k d)) with (call_disc d).
+  change (d_stmts (cut k d)) with (firstn k (d_stmts d)).
+  destruct (call_disc d); auto.
+  destruct (env_get e0 l); auto.
+  destruct (memb N.eqb l (labels_of (firstn k (d_stmts d)))) eqn:Em; [|discriminate].
+  intros [= <-]. right. repeat split; auto. now apply (memb_In N.eqb N.eqb_spec).
+Qed.
+
+Theorem same_doc_twice fresh j1 j2 st d t2 :
+  supply_ok fresh -> j1 <> j2 -> call_disc d = Fresh ->
+  let st1 := snd (parse_call (fresh j1) [] st d) in
+  let st2 := snd (parse_call (fresh j2) [] st1 (retarget t2 d)) in
+  (forall q, In q st2 <->
+     In q st \/ In q (map (sub_stmt (fresh j1) (d_target d)) (d_stmts d))
+             \/ In q (map (sub_stmt (fresh j2) t2) (d_stmts d))) /\
+  (forall l l', l < LB -> l' < LB -> fresh j1 l <> fresh j2 l').
+Proof.
+  intros [Hinj _] Hne Hd st1 st2. split.
+  - intros q. unfold st2, st1. rewrite !parse_call_In.
+    change (call_disc (retarget t2 d)) with (call_disc d). rewrite Hd. simpl.
+    assert (forall fr t, map (sub_stmt (node_fn fr Fresh []) t) (d_stmts d) = map (sub_stmt fr t) (d_stmts d)) as E.
+    { intros fr t. apply map_ext. intros s. apply sub_stmt_ext. reflexivity. }
+    rewrite !E. tauto.
+  - intros l l' Hl Hl' E. apply Hinj in E; auto. tauto.
 Qed.
